@@ -190,6 +190,9 @@ class Universe:
         ax += [z3.Not(is_callable(c)) for c in (self.NONE, self.TRUE, self.FALSE, self.UNDEF, self.NOTIMPL)]
         self._distinct_dirty = True
         self._str_lits = []
+        self._wt_done = set()
+        self._wt_keep = []
+        self._misc_done = set()
 
     # -- fresh symbols ---------------------------------------------------------------
     def fresh(self, hint="v"):
@@ -214,6 +217,10 @@ class Universe:
         """Type invariants of an arbitrary Python value (input validity predicate: symbolic
         inputs must be *valid Python objects*, otherwise spurious counter-models appear)."""
         ax = self.axioms
+        if t.get_id() in self._wt_done:
+            return
+        self._wt_done.add(t.get_id())
+        self._wt_keep.append(t)
         ax.append(z3.And(ty(t) >= 0, ty(t) < len(TYPES)))
         ax.append(z3.And(kind(t) >= 0, kind(t) <= 3))
         ax.append((ty(t) == TAG["NoneType"]) == (t == self.NONE))
